@@ -16,7 +16,8 @@ WATCHDOG = {"quick": 1500, "thorough": 3300}
 REQUIRED_CLASSES = {t: ["dim:3d", "dim:2d_with_z", "dim:2d_without_z", "elements:linear", "elements:quadratic", "elements:mixed_types",
                         "ids:contiguous", "ids:gaps", "ids:large_int32", "rows:elements_in_descending_or_shuffled_order",
                         "rows:elements_interleaved", "sets:node", "sets:element", "variables:NODE", "variables:ELEMENT_NODAL",
-                        "history:several_geometries", "history:several_states", "fault:in_add_geometry", "fault:in_add_variable", "fault:container_holds_earlier_variable",
+                        "history:several_geometries", "history:several_states", "history:2d_and_3d_geometries_in_one_file", "history:2d_after_3d",
+                        "import:one_importer_several_geometries", "fault:in_add_geometry", "fault:in_add_variable", "fault:container_holds_earlier_variable",
                         "fault:container_created_by_the_failing_call",
                         "misuse:duplicate_geometry", "misuse:duplicate_variable", "misuse:variable_for_unknown_geometry",
                         "misuse:variable_columns_missing_in_frame", "misuse:geometry_without_x_column"]
@@ -206,7 +207,16 @@ def _roundtrip(case, ctx, rng, tmp):
     from pylife.vmap import VMAPExport, VMAPImport
     ngeo = int(rng.integers(1, 4))
     nst = int(rng.integers(1, 3))
-    geoms = {f"G{j}": make_mesh(case, rng) for j in range(ngeo)}
+    dims = [case["dim"]] * ngeo
+    if ngeo > 1 and rng.random() < 0.6:
+        # geometries of different dimension in one file, in any order (3D after 2D and 2D after 3D)
+        dims = [case["dim"]] + [["3d", "2d_with_z", "2d_without_z"][int(rng.integers(0, 3))] for _ in range(ngeo - 1)]
+        if len({d[:2] for d in dims}) > 1:
+            ctx.tag("history:2d_and_3d_geometries_in_one_file")
+            if any(dims[j][:2] == "3d" and dims[j + 1][:2] == "2d" for j in range(ngeo - 1)):
+                ctx.tag("history:2d_after_3d")
+    geoms = {f"G{j}": make_mesh(dict(case, dim=dims[j]), rng) for j in range(ngeo)}
+    gdim = {f"G{j}": dims[j] for j in range(ngeo)}
     states = [f"STATE-{j}" for j in range(1, nst + 1)]
     if ngeo > 1:
         ctx.tag("history:several_geometries")
@@ -234,8 +244,8 @@ def _roundtrip(case, ctx, rng, tmp):
     except Exception as e:
         ctx.fail("export_of_valid_mesh_raised", observed=f"{type(e).__name__}: {e}"[:300], tags=mech, detail=detail)
         return
-    coords = ["x", "y", "z"] if case["dim"] != "2d_without_z" else ["x", "y"]
     for gname, df in geoms.items():
+        coords = ["x", "y", "z"] if gdim[gname] != "2d_without_z" else ["x", "y"]
         exp = expected_frame(df)
         for st in states:
             try:
@@ -246,6 +256,24 @@ def _roundtrip(case, ctx, rng, tmp):
                 return
             _compare(ctx, got, exp, mech, dict(detail, geometry=gname, state=st), coords)
             ctx.check("import_repeatable", got.equals(again) and list(got.index) == list(again.index), observed="second import differs", tags=mech)
+    # one importer object reading all geometries, there and back again: what it returns must not depend on what it read before
+    if ngeo > 1:
+        ctx.tag("import:one_importer_several_geometries")
+        imp1 = VMAPImport(path)
+        try:
+            ok, bad = True, None
+            for gname in list(geoms) + list(geoms)[::-1]:
+                exp = expected_frame(geoms[gname])
+                got = imp1.make_mesh(gname, states[0]).join_coordinates().join_variable("STRESS_CAUCHY").to_frame()
+                cs = (["x", "y", "z"] if gdim[gname] != "2d_without_z" else ["x", "y"]) + ["S11", "S23"]
+                if not (list(got.index) == list(exp.index) and all(np.array_equal(got[c].to_numpy(), exp[c].to_numpy()) for c in cs)):
+                    ok, bad = False, {"geometry": gname, "rows_read": list(got.index)[:6], "rows_expected": list(exp.index)[:6]}
+                    break
+            ctx.check("import_repeatable", ok, observed=bad, tags=mech, detail="one importer, several geometries")
+        except Exception as e:
+            ctx.fail("import_repeatable", observed=f"{type(e).__name__}: {e}"[:300], tags=mech, detail="one importer, several geometries")
+        finally:
+            imp1._file.close()
     # sets
     imp = VMAPImport(path)
     try:
